@@ -372,3 +372,12 @@ pub fn start_server<C: dropshot::ServerContext>(
     }
     b.start().map_err(|e| format!("server start: {}", e))
 }
+
+/// start a live HTTPS server (self-signed certificate) for an API
+pub fn start_server_tls<C: dropshot::ServerContext>(api: ApiDescription<C>, ctx: C, config: dropshot::ConfigDropshot) -> Result<dropshot::HttpServer<C>, String> {
+    dropshot::ServerBuilder::new(api, ctx, discard_log())
+        .config(config)
+        .tls(Some(crate::tls::server_tls_config()))
+        .start()
+        .map_err(|e| format!("server start: {}", e))
+}
